@@ -2,6 +2,7 @@
 From Coq Require Import List NArith Bool.
 Import ListNotations.
 From SV Require Import Template gen_Unicode Escape LineParser CramSpec Markdown MarkdownProofs MdSpec.
+From SV Require MdParseProofs.
 Local Open Scope N_scope.
 
 (* the tokenizer (model of MarkdownIterator, end-of-document flush included) is lossless: every line of every document,
@@ -16,15 +17,19 @@ Proof. exact fence_needs_three. Qed.
 Theorem C06_backticks_inside_are_inert : forall c r, c <> BT -> extract_code_block_start (c :: r) = None.
 Proof. exact backticks_inside_are_inert. Qed.
 
-(* the grammar statement: for a well-formed document AST the parser returns exactly the denoted tests.  It is
-   evaluated on every generated document against the IMPLEMENTATION (md_tests_of is the oracle) and proved here on a
-   representative instance; the general induction is the Cram proof's (C07_parse_render) plus the token automaton and
-   is left stated, not proved: C06_parse_render_partial *)
-Definition C06_parse_render_statement : Prop :=
-  forall pe_ok front_ok cfg_ok d, wf_md pe_ok front_ok cfg_ok d = true ->
-    parse_md pe_ok front_ok cfg_ok (render_md d) = LOk (md_tests_of d).
+(* the grammar round trip: for EVERY well-formed document AST -- front-matter, prose (also lines starting with one or two
+   backticks or containing backticks anywhere), headings, blank lines, other code blocks, scrut blocks with inline
+   configuration, comments, continuations, expectation lines, exit codes, closing fences longer than the opening one or
+   followed by text -- the parser returns exactly the tests the AST denotes: command with continuations, expectation
+   lines, exit code, raw inline configuration, 1-based line of the `$` line, title = nearest preceding paragraph or
+   heading.  Proved via the tokens of the rendered document (MdParseProofs.tokens_render) and an invariant of the
+   line parser over them. *)
+Theorem C06_parse_render : forall pe_ok front_ok cfg_ok d, wf_md pe_ok front_ok cfg_ok d = true ->
+  parse_md pe_ok front_ok cfg_ok (render_md d) = LOk (md_tests_of d).
+Proof. exact MdParseProofs.parse_render_md. Qed.
 
-Example C06_parse_render_partial :
+(* non-vacuity: a document with every kind of element *)
+Example C06_parse_render_instance :
   let d := [EFront [[120]]; EHeading 1 [84]; EBlank;
             EProse [96; 105; 96; 32; 120];
             EForeign 3 [115; 104] [[36; 32; 110; 111]; [96; 96]] [96; 32];
@@ -37,6 +42,8 @@ Example C06_parse_render_partial :
      = [([84], 13%nat, Some [97]); ([80; 32; 49; 10; 80; 32; 50], 24%nat, None)].
 Proof. repeat split; vm_compute; reflexivity. Qed.
 
+Check C06_parse_render : forall pe_ok front_ok cfg_ok d, wf_md pe_ok front_ok cfg_ok d = true ->
+  parse_md pe_ok front_ok cfg_ok (render_md d) = LOk (md_tests_of d).
 Check C06_nothing_dropped : forall ls, concat (map tok_raw (md_tokens ls)) = ls.
 
 (* truncation: an unterminated scrut block is read to the end of the document and still yields its test *)
@@ -49,4 +56,4 @@ Proof. vm_compute. reflexivity. Qed.
 Print Assumptions C06_nothing_dropped.
 Print Assumptions C06_fence_needs_three.
 Print Assumptions C06_backticks_inside_are_inert.
-Print Assumptions C06_parse_render_partial.
+Print Assumptions C06_parse_render.
